@@ -19,13 +19,19 @@ def generate_and_drive(ctx):
     inp = ctx.write_ndjson("cenc.ndjson", cases)
     t7 = os.path.join(ctx.scratch, "trace07.ndjson")
     t6 = os.path.join(ctx.scratch, "trace06.ndjson")
+    # slices of every header shape (AvcSyntax.tla): the cbcs clear range must end where the syntax says the header ends
+    rs = ctx.tlc_ok("AvcSyntax", "Avc_slice_quick.cfg", workers=14, timeout=3000, heap="16g", stack="256m")
+    slices = ctx.write_ndjson("avc_slices.ndjson", sorted(rs.exported, key=lambda e: str(e["nal"]) + str(e["ppsnal"])))
     encbin = ctx.build_repo_binary("./cmd/mp4ff-encrypt", "mp4ff-encrypt")
     decbin = ctx.build_repo_binary("./cmd/mp4ff-decrypt", "mp4ff-decrypt")
-    s = core.absorb(ctx, ctx.harness(["cenc-drive", "-in", inp, "-trace07", t7, "-trace06", t6, "-encbin", encbin, "-decbin", decbin], timeout=3000))
+    s = core.absorb(ctx, ctx.harness(["cenc-drive", "-in", inp, "-trace07", t7, "-trace06", t6, "-encbin", encbin, "-decbin", decbin,
+                                          "-slices", slices, "-slicestride", "9" if q else "2"], timeout=3000))
+    if s["extra"].get("cbcs_spec_slices", 0) < 100:
+        raise core.Machinery("only %d cbcs runs on spec-serialised slices" % s["extra"].get("cbcs_spec_slices", 0))
     if s["extra"]["tool_runs"] < 50:
         raise core.Machinery("only %d runs of the mp4ff-encrypt / mp4ff-decrypt binaries" % s["extra"]["tool_runs"])
     ctx.cov["bounds"] = {"nal_sizes": "classes around 16/96/112/128 and the 64 KiB clear-run split", "nals_per_sample": "1..2 (3 for the 64 KiB set)",
-                         "samples_per_fragment": "1..3", "schemes": ["cenc (avc, hevc, audio)", "cbcs (audio; avc: generated multi-slice samples with real slice-header heads, and corpus init.mp4+1.m4s)"],
+                         "samples_per_fragment": "1..3", "schemes": ["cenc (avc, hevc, audio)", "cbcs (audio; avc: generated multi-slice samples with real slice-header heads, %d samples made of slices serialised by AvcSyntax.tla (every header variation), and corpus init.mp4+1.m4s)" % s["extra"].get("cbcs_spec_slices", 0)],
                          "ivs": "8 and 16 bytes: zero, one, ..00ff (carry), ff..fe, ff..ff (wrap), mixed, random",
                          "extra_boxes": ["none", "vndr+zzzz+moof-level uuid", "also a non-senc uuid inside traf"],
                          "paths": "library API (InitProtect / EncryptFragment / DecryptInit / DecryptSegment) on every case; the built mp4ff-encrypt and mp4ff-decrypt binaries on %d of them" % s["extra"]["tool_runs"]}
